@@ -92,6 +92,10 @@ func (k *Check) One(sc *Scenario, s *Sim) error {
 			c.Count("violation-of-" + v.Prop + ":" + v.Key)
 		}
 	}
+	if sc.Reuse {
+		c.Count("monitor-only:reused-msg-id")
+		return nil
+	}
 	k.lines = append(k.lines, s.Line())
 	k.sums = append(k.sums, s.Summary())
 	k.inputs = append(k.inputs, in)
